@@ -2,5 +2,7 @@ import GinjaxVerif.Properties.C01
 import GinjaxVerif.Properties.C02
 import GinjaxVerif.Properties.C03
 import GinjaxVerif.Properties.C04
+import GinjaxVerif.Properties.C15
 import GinjaxVerif.Properties.C16
+import GinjaxVerif.Properties.C17
 import GinjaxVerif.Properties.C19
